@@ -31,6 +31,7 @@ def handlers : List (String × (Json → R Json)) := [
   ("style", Plot.hStyle),
   ("floor", Dispatch.hFloor),
   ("kde", Kde.hKde),
+  ("geom_parts", Geom.hGeomParts),
   ("poisson_mi", PoissonMI.hPoissonMI),
   ("poisson_mi_args", PoissonMI.hPoissonMIArgs)
 ]
